@@ -312,20 +312,27 @@ Definition handle_join (desc : description) (gname : string) (members : list str
 
 (* -------------------------------------------------- galenectl makePassword *)
 
-Variable bcrypt_gen : string -> Z -> string -> string.   (* password, cost, random salt *)
+(* bcrypt.GenerateFromPassword(password, cost) with the random salt it
+   draws; None = the library returns an error (it refuses passwords longer
+   than 72 bytes) *)
+Variable bcrypt_gen : string -> Z -> string -> option string.
 
 Inductive algorithm := AlgPbkdf2 | AlgBcrypt | AlgWildcard.
 
-(* [salt] is the result of rand.Read *)
+(* [salt] is the result of rand.Read.  None = makePassword returns an error.
+   The password is handed to the hash function as it is. *)
 Definition make_password (alg : algorithm) (pw salt : string) (iterations length cost : Z)
-  : password :=
+  : option password :=
   match alg with
   | AlgPbkdf2 =>
       let key := pbkdf2 pw salt iterations length in
-      mkPassword "pbkdf2" "sha-256" (Some (hex_encode key)) (hex_encode salt) iterations
+      Some (mkPassword "pbkdf2" "sha-256" (Some (hex_encode key)) (hex_encode salt) iterations)
   | AlgBcrypt =>
-      mkPassword "bcrypt" "" (Some (bcrypt_gen pw cost salt)) "" 0%Z
-  | AlgWildcard => mkPassword "wildcard" "" None "" 0%Z
+      match bcrypt_gen pw cost salt with
+      | None => None
+      | Some key => Some (mkPassword "bcrypt" "" (Some key) "" 0%Z)
+      end
+  | AlgWildcard => Some (mkPassword "wildcard" "" None "" 0%Z)
   end.
 
 End Oracles.
